@@ -387,7 +387,7 @@ func init() {
 				cs = append(cs, &c02Case{Main: m, Lane: "escaped-paren-and-trailing-backslash", Update: true})
 			}
 			// author-written flag groups in programs without any of ^ $ .
-			for _, m := range []string{"x(?i:abc)\n", "(?i)select\n", "##!+ i\nfoo(?i:bar)|baz\n", "(?s:a)b\nc\n", "##!> assemble\n  (?i:k)\n  l\n##!<\n"} {
+			for _, m := range []string{"a\\\\(?i:b)\n", "c:\\\\(?i:windows|winnt)\\\\system32\n", "\\\\(?s:.)x.\n", "[\\s -\\\\]x\n", "[\\s -\x7f]\n", "[\\s -\u00e9]y\n", "[\\s -~]z\n", "x(?i:abc)\n", "(?i)select\n", "##!+ i\nfoo(?i:bar)|baz\n", "(?s:a)b\nc\n", "##!> assemble\n  (?i:k)\n  l\n##!<\n"} {
 				cs = append(cs, &c02Case{Main: m, Lane: "author-flag-groups", Update: true})
 			}
 			return cs
